@@ -819,6 +819,10 @@ func (gen *Generator) GenerateAssignment(expr *SexpPair, assignPos int) error {
 		if err != nil {
 			return err
 		}
+		if i < len(rhs)-1 {
+			// the form has one value: that of its last pair
+			gen.AddInstruction(PopInstr(0))
+		}
 	}
 	return nil
 }
